@@ -12,7 +12,9 @@ import (
 
 // C07.image: a complete image (superblock, one fragment block, inode/directory/fragment/export/id
 // tables) assembled with the writers Finalize uses, in Finalize's order, for the tree
-//   ./a (file smaller than a block, arbitrary content and size)  ./l (symlink)  ./d/ (empty)
+//
+//	./a (file smaller than a block, arbitrary content and size)  ./l (symlink)  ./d/ (empty)
+//
 // and opened with squashfs.Read - at offset 0 of the device and inside a partition (Create/Read wrap
 // the device in backend.Sub). Finalize itself (walkTree, os.Open of workspace files) cannot run in
 // the engine; the superblock is filled in exactly as Finalize's struct literal does.
